@@ -527,8 +527,43 @@ def sim_open(file, mode="r", *a, **k):
     return f
 
 
+_mkdir_installed = False
+
+
+def _install_mkdir_seam():
+    """Directory creation by the engine (session directory, output folder) is a numbered,
+    faultable file-seam call.  pathlib.Path.mkdir / os.mkdir are wrapped once; the wrapper is a
+    pass-through unless the *caller's* frame belongs to the engine."""
+    global _mkdir_installed
+    if _mkdir_installed:
+        return
+    import pathlib
+    import sys
+
+    from . import paths as _paths
+
+    prefix = os.path.join(_paths.REPO_SRC, "vtlengine") + os.sep
+    real_path_mkdir = pathlib.Path.mkdir
+    real_os_mkdir = os.mkdir
+
+    def path_mkdir(self, *a, **k):
+        if sys._getframe(1).f_code.co_filename.startswith(prefix):
+            SIM.step("mkdir", str(self), family="file")
+        return real_path_mkdir(self, *a, **k)
+
+    def os_mkdir(path, *a, **k):
+        if sys._getframe(1).f_code.co_filename.startswith(prefix):
+            SIM.step("mkdir", str(path), family="file")
+        return real_os_mkdir(path, *a, **k)
+
+    pathlib.Path.mkdir = path_mkdir
+    os.mkdir = os_mkdir
+    _mkdir_installed = True
+
+
 def install_engine_seams():
     """Rebind module-level names inside the engine (after vtlengine is imported)."""
+    _install_mkdir_seam()
     import vtlengine.API._InternalApi as internal
     import vtlengine.duckdb_transpiler.Config.config as config
     import vtlengine.duckdb_transpiler.io._io as _io
